@@ -216,8 +216,22 @@ func (a *AliveDialerSet) printLatencies() {
 
 // NotifyLatencyChange should be invoked when dialer every time latency and alive state changes.
 func (a *AliveDialerSet) NotifyLatencyChange(dialer *Dialer, alive bool) {
+	a.notifyLatencyChange(dialer, func() bool { return alive })
+}
+
+// NotifyDialerStateChange is NotifyLatencyChange with the dialer's alive state
+// read under the set's lock. A report changes the dialer's state under the
+// dialer's lock but notifies the groups after releasing it, so two overlapping
+// reports about one dialer may notify in the opposite order; with the state
+// captured at report time the set would keep the older state for good.
+func (a *AliveDialerSet) NotifyDialerStateChange(dialer *Dialer) {
+	a.notifyLatencyChange(dialer, func() bool { return dialer.MustGetAlive(a.CheckTyp) })
+}
+
+func (a *AliveDialerSet) notifyLatencyChange(dialer *Dialer, aliveNow func() bool) {
 	a.mu.Lock()
 	defer a.mu.Unlock()
+	alive := aliveNow()
 	var (
 		rawLatency     time.Duration
 		sortingLatency time.Duration
